@@ -40,7 +40,7 @@ TRUSTED = [
     "numpy array copying",
     "AgentSet half (Model/CopySet.lean): CPython reference counting + gc as 'alive iff reachable' (the harness collects before every line and holds agents weakly); one public attribute per agent; sets are never dropped by the program",
     "the identity-level model (Model/Copy.lean) covers grids' dynamic cell class + property descriptors; Network / Voronoi cells have no descriptors",
-    "occupancy half (Model/CopyOcc.lean): one Model per space, copied as the pair (space, model); connections are never edited by the program, so the rebuilt connections of a copy are the shifted ones of the original; the second capacity test of a re-entering `agent.cell = cell` is unreachable (capacity invariant); the generator object of a space (space.random = model.random = every cell.random) is part of the record of the pair space / model, not an object of its own",
+    "occupancy half (Model/CopyOcc.lean): one Model per space, copied as the pair (space, model); connections are never edited by the program, so the rebuilt connections of a copy are the shifted ones of the original; the second capacity test of a re-entering `agent.cell = cell` is unreachable (capacity invariant); the generator object of a space (space.random = model.random = every cell.random) and the dynamic cell class of a grid share the identity of the pair space / model (cells refer to them through `rnd` / `klass`)",
 ]
 ASSUMPTIONS = ["the space is copied together with the agents in it and their model (what deepcopy / pickle of a space does)",
                "extra layers hold small integers (dtype int); names are chosen among non-clashing identifiers plus the rejected ones",
